@@ -36,7 +36,9 @@ func DefaultCreateConnection(remote net.Addr, block kcp.BlockCrypt) (net.Conn, e
 }
 
 func (ups *Packet) String() string {
-	return ups.Address.String()
+	address := ups.Address
+	address.User = nil
+	return address.String()
 }
 
 // Connect will create a stream over packet connection and use the DefaultCreateConnection to do so.
@@ -68,15 +70,18 @@ func (ups *Packet) ConnectPacket(manager cert.TlsConfig, mustSecure bool, connec
 			salt = h.Sum(nil)
 		}
 	}
-	ups.Address.User = nil
+	// The password is not part of the address to dial (and stays out of the log); the configured address keeps it,
+	// since the same upstream is connected again whenever its session has to be re-established.
+	address := ups.Address
+	address.User = nil
 
-	n, err := ups.Address.Addr()
+	n, err := address.Addr()
 	if err != nil {
 		return errors.WithStack(err)
 	}
 
 	if secure {
-		log.Debugf("Starting AES-encrypted packet client to %s", ups.String())
+		log.Debugf("Starting AES-encrypted packet client to %s", address.String())
 
 		key := pbkdf2.Key(pass, salt, 1024, 32, sha256.New)
 		if b, err := kcp.NewAESBlockCrypt(key); err != nil {
@@ -85,30 +90,30 @@ func (ups *Packet) ConnectPacket(manager cert.TlsConfig, mustSecure bool, connec
 			block = b
 		}
 	} else {
-		log.Debugf("Starting plain packet client to %s", ups.String())
+		log.Debugf("Starting plain packet client to %s", address.String())
 	}
 
 	c, err := connectFunc(n, block)
 	if err != nil {
-		return errors.Wrapf(err, "Could not connect to %v", ups.Address)
+		return errors.Wrapf(err, "Could not connect to %v", address)
 	}
 
-	log.Debugf("[Client] Socket upstream connection established to %v", ups.Address.String())
+	log.Debugf("[Client] Socket upstream connection established to %v", address.String())
 
 	// Even if the packets are encrypted using AES symmetric cyper, let the server know we're open to StartTLS
 	// communication. Why? Because:
 	// - we can check certificates / hostnames
 	// - we can execute mutual (client-server) authentication
-	cc, err := socketace.NewClientConnection(c, manager, false, ups.Address.Host)
+	cc, err := socketace.NewClientConnection(c, manager, false, address.Host)
 	if err != nil {
 		return errors.Wrapf(err, "Could not open connection")
 	} else if mustSecure && !cc.Secure() {
-		return errors.Errorf("Could not establish a secure connection to %v", ups.Address)
+		return errors.Errorf("Could not establish a secure connection to %v", address)
 	} else {
 		stream = cc
 	}
 
-	ups.Connection = streams.NewNamedConnection(streams.NewNamedConnection(stream, ups.Address.String()), "socket")
+	ups.Connection = streams.NewNamedConnection(streams.NewNamedConnection(stream, address.String()), "socket")
 
 	return nil
 }
